@@ -30,6 +30,8 @@ type c10Case struct {
 	// 2 settled + edit last entity's subject; 3 settled + edit last entity's extensions and touch all configs;
 	// 4 settled + delete the last entity's artifact
 	Pre int `json:"pre,omitempty"`
+	// Dir: how the directory is named on the command line (simfs.World.DirForm), consent cases only
+	Dir int `json:"dir,omitempty"`
 }
 
 var c10ToggleNames = []string{"profile", "relative-validity", "absolute-validity", "manipulations", "imported-key", "csr-leaf", "nested+alias", "same-stem-two-suffixes", "extension-list"}
@@ -101,7 +103,7 @@ func c10Build(hier int, toggles []int) (*Dir, map[string][]byte) {
 			cfg.Profile = "prof"
 		}
 		if last && has(3) {
-			cfg.Manip = &refcfg.Manip{Version: refcfg.I64(1), SigValue: refcfg.Bin([]byte{1, 2, 3}), TbsPubKeyAlg: refcfg.S("1.2.3.4")}
+			cfg.Manip = &refcfg.Manip{Version: refcfg.I64(1), SigValue: refcfg.Bin([]byte{1, 2, 3}), TbsPubKeyAlg: refcfg.S("1.2.3.4"), TbsPubKey: refcfg.Bin([]byte{4, 9, 8, 7, 6})}
 		}
 		if i == 0 && has(4) {
 			pre[ArtifactPath(cfg.Path)] = FixtureKeyPEM("P-384-0")
@@ -211,6 +213,12 @@ func c10Enumerate(tier string, yield func(any)) {
 		for a := range c10Answers {
 			yield(&c10Case{Kind: "consent", Hier: hier, Toggles: []int{}, Answer: a})
 			yield(&c10Case{Kind: "consent", Hier: hier, Toggles: []int{0, 6}, Answer: a})
+			if a < 2 {
+				// the directory named in other ways: relative, ./dir/, "." from inside, through a link
+				for dir := 1; dir <= 4; dir++ {
+					yield(&c10Case{Kind: "consent", Hier: hier, Toggles: []int{0, 6}, Answer: a, Dir: dir})
+				}
+			}
 			if hier > 0 {
 				// the entity to be replaced holds a certificate but no private key (request-based / key stripped)
 				yield(&c10Case{Kind: "consent", Hier: hier, Toggles: []int{5}, Answer: a, Pre: 1})
@@ -397,7 +405,8 @@ func c10Exec(x *engine.Ctx, cc any) {
 func c10Consent(x *engine.Ctx, c *c10Case) {
 	c.Clock = 0
 	d, w := c10World(c)
-	x.Nontrivial(fmt.Sprintf("consent %d %v %d %d", c.Hier, c.Toggles, c.Answer, c.Pre))
+	w.DirForm = c.Dir
+	x.Nontrivial(fmt.Sprintf("consent %d %v %d %d %d", c.Hier, c.Toggles, c.Answer, c.Pre, c.Dir))
 	// fresh directory: nothing is replaced, so no prompt and no need for an answer
 	res, err := drive.RunCLI(w, drive.Default, "")
 	if err != nil {
@@ -500,7 +509,7 @@ func init() {
 	register(&engine.Check{
 		ID:          "C10",
 		Level:       "model_checking",
-		Rule:        "4 hierarchies (root; root+sub; 3-tier chain; root+2 subs; keys on P-224, brainpoolP256r1, P-384, brainpoolP384t1 by position) x toggle sets of size <=2 (thorough <=4 and all seven) over {profile, relative validity, absolute validity (current, not yet valid and expired-by-design periods by position), manipulations, imported key, CSR-based leaf, nested directories + explicit aliases; plus a world where two configurations share an artifact file and worlds where every entity carries seven extensions with mixed-case names} x 16 flag sets without generate-all x 3 clock modes (tick per write / one tick per run / the run shares the tick of the last edit before it), 5 foreign files present: run, then run again with the same flags - from the fresh directory and (for the <=1-toggle worlds; all in thorough) after four histories: settled + edit of the root's subject, of the last entity's subject, of its extensions plus touching every config, deletion of its artifact. Second run: empty plan, nothing generated, empty write log, directory identical including mtimes. First run: changed paths = artifact paths of exactly the reported entities, no other path changed or created. The same run;run on the built binary in a native directory for every flag set on the <=1-toggle worlds and a diagonal of the rest; consent: 9 stdin answers on 14 worlds with a pending replacement (incl. replaced entities that hold a certificate but no private key: request-based, key stripped) (only `y` replaces, others leave the directory identical and exit 0, no prompt when nothing is replaced). states = worlds, transitions = runs, traces_validated = binary runs",
+		Rule:        "4 hierarchies (root; root+sub; 3-tier chain; root+2 subs; keys on P-224, brainpoolP256r1, P-384, brainpoolP384t1 by position) x toggle sets of size <=2 (thorough <=4 and all seven) over {profile, relative validity, absolute validity (current, not yet valid and expired-by-design periods by position), manipulations (version, signature value, key algorithm and key bits of the last entity), imported key, CSR-based leaf, nested directories + explicit aliases; plus a world where two configurations share an artifact file and worlds where every entity carries seven extensions with mixed-case names} x 16 flag sets without generate-all x 3 clock modes (tick per write / one tick per run / the run shares the tick of the last edit before it), 5 foreign files present: run, then run again with the same flags - from the fresh directory and (for the <=1-toggle worlds; all in thorough) after four histories: settled + edit of the root's subject, of the last entity's subject, of its extensions plus touching every config, deletion of its artifact. Second run: empty plan, nothing generated, empty write log, directory identical including mtimes. First run: changed paths = artifact paths of exactly the reported entities, no other path changed or created. The same run;run on the built binary in a native directory for every flag set on the <=1-toggle worlds and a diagonal of the rest; consent: 9 stdin answers on 14 worlds with a pending replacement (the directory named as an absolute path; for y and n also relative, as ./dir/, as . from inside it, and through a symbolic link) (incl. replaced entities that hold a certificate but no private key: request-based, key stripped) (only `y` replaces, others leave the directory identical and exit 0, no prompt when nothing is replaced). states = worlds, transitions = runs, traces_validated = binary runs",
 		Bound:       map[string]string{"toggle set size": "quick<=2 thorough<=4 + all"},
 		Assumptions: []string{"answers `y` without newline and ` y ` are accepted by the code; the statement says `y`, so they are not demanded either way"},
 		Budget:      budgets(quickBudget, thoroughBudget),
